@@ -112,14 +112,54 @@ def g_bvec(rng):
     return [_r(v) for v in rng.uniform(-3, 3, 3)]
 
 
+def g_pol(rng):
+    v = rng.normal(size=3)
+    v[2] *= 0.2
+    v = v / np.linalg.norm(v)
+    return [_r(x) for x in v]
+
+
+def g_profile(rng, kind=None):
+    kind = kind or ["uniform", "bivariate", "trivariate", "gbeam"][int(rng.integers(4))]
+    pr = dict(kind=kind, pol=g_pol(rng), laser_length=_r(rng.uniform(0.6, 1.6)), laser_radius=_r(rng.uniform(0.015, 0.06)))
+    if kind == "uniform":
+        pr["energy_density"] = _r(10 ** rng.uniform(-1, 2))
+    else:
+        pr["pulse_energy"] = _r(10 ** rng.uniform(-1, 1))
+        pr["pulse_length"] = _r(10 ** rng.uniform(-9, -8))
+    if kind in ("bivariate", "trivariate"):
+        pr["stddev_x"] = _r(rng.uniform(0.005, 0.03))
+        pr["stddev_y"] = _r(rng.uniform(0.005, 0.03))
+    if kind == "trivariate":
+        pr["mean_z"] = _r(rng.uniform(0.2, 1.0))
+        pr["pulse_length"] = _r(10 ** rng.uniform(-9.3, -8.7))
+    if kind == "gbeam":
+        pr["waist_z"] = _r(rng.uniform(-0.2, 1.2))
+        pr["stddev_waist"] = _r(rng.uniform(0.002, 0.02))
+        pr["laser_wavelength"] = _r(rng.uniform(500, 1100))
+    return pr
+
+
+def g_spectrum(rng, kind=None):
+    kind = kind or ["constant", "gaussian"][int(rng.integers(2))]
+    c = rng.uniform(500, 600)
+    w = 10 ** rng.uniform(-1, 1)
+    sp = dict(kind=kind, min_wavelength=_r(c - w), max_wavelength=_r(c + w), bins=int(rng.integers(1, 6)))
+    if kind == "gaussian":
+        sp["mean"] = _r(c + rng.uniform(-0.5, 0.5) * w)
+        sp["stddev"] = _r(w * rng.uniform(0.1, 1.0))
+    return sp
+
+
 def pick_models(rng, table, n):
     idx = rng.permutation(len(table))[:n]
     return [table[int(i)] for i in idx]
 
 
 def gen_case(rng, tier):
-    has_beam = rng.random() < 0.7
-    n_pm = int(rng.integers(0, 4)) if has_beam else int(rng.integers(1, 4))
+    has_beam = rng.random() < 0.6
+    has_laser = rng.random() < (0.35 if has_beam else 0.6)
+    n_pm = int(rng.integers(0, 4)) if (has_beam or has_laser) else int(rng.integers(1, 4))
     pm = pick_models(rng, PMODELS, n_pm)
     bm = pick_models(rng, BMODELS, int(rng.integers(1, 3))) if has_beam else []
     need = {("deuterium", 1)}
@@ -148,6 +188,12 @@ def gen_case(rng, tier):
         for m in cfg["beam"]["models"]:
             if m["kind"] == "bes":
                 m["el"] = cfg["beam"]["element"]
+    if has_laser:
+        cfg["laser"] = dict(parent=["world", "node"][int(rng.integers(2))],
+                            transform=[_r(v) for v in list(rng.uniform(-0.1, 0.1, 2)) + [rng.uniform(-0.9, -0.4)] + list(rng.uniform(-15, 15, 3))],
+                            importance=_r(rng.uniform(0.0, 5.0)), integrator_step=_r(rng.uniform(0.01, 0.03)),
+                            profile=g_profile(rng), spectrum=g_spectrum(rng),
+                            models=[dict(kind="thomson")] if rng.random() < 0.85 else [])
     # probes: rays from a sphere of radius 3 towards the central region, plus rays across the nominal beam path
     rays = []
     for i in range(5):
@@ -156,6 +202,15 @@ def gen_case(rng, tier):
         tgt = rng.uniform(-0.2, 0.2, 3)
         if has_beam and i >= 3:
             tgt = np.array([0.0, 0.0, rng.uniform(-0.3, 0.5)]) + rng.uniform(-0.05, 0.05, 3)
+        if has_laser and i in (1, 2):
+            # a point on the laser axis in its initial placement (world frame, ignoring the intermediate node)
+            from vf import scene as _sc
+            zz = rng.uniform(0.1, 0.9) * cfg["laser"]["profile"]["laser_length"]
+            m = _sc.T(cfg["laser"]["transform"])
+            if cfg["laser"]["parent"] == "node":
+                m = _sc.T(cfg["node_transform"]) * m
+            q = _sc.Point3D(0, 0, zz).transform(m)
+            tgt = np.array([q.x, q.y, q.z]) + rng.uniform(-0.3, 0.3, 3) * cfg["laser"]["profile"]["laser_radius"]
         d = tgt - o
         d = d / np.linalg.norm(d)
         rays.append([[_r(v, 9) for v in o], [_r(v, 9) for v in d]])
@@ -208,6 +263,16 @@ def _sim_apply(sim, op):
         bc["models"][op["i"]] = dict(bc["models"][op["i"]], el=op["el"], q=op["q"], tr=op["tr"])
     elif k == "b_element":
         bc["element"] = op["v"]
+    elif k == "l_profile":
+        sim["laser"]["profile"] = dict(op["pr"])
+    elif k == "l_spectrum":
+        sim["laser"]["spectrum"] = dict(op["sp"])
+    elif k == "lp_set":
+        sim["laser"]["profile"][op["attr"]] = op["v"]
+    elif k == "ls_set":
+        sim["laser"]["spectrum"][op["attr"]] = op["v"]
+    elif k == "l_models_set":
+        sim["laser"]["models"] = list(op["list"])
 
 
 P_OPS = ["p_bfield", "p_electrons", "p_comp_add", "p_comp_add", "p_comp_set", "p_comp_assign", "p_comp_clear", "p_geometry",
@@ -219,10 +284,59 @@ B_OPS = ["b_energy", "b_power", "b_temperature", "b_sigma", "b_divergence_x", "b
          "b_parent", "bm_line", "node_transform"]
 
 
+L_OPS = ["l_transform", "l_transform", "l_parent", "l_importance", "l_integrator", "l_integrator_step", "l_spectrum", "l_profile",
+         "l_models_set", "l_plasma", "lp_set", "lp_set", "lp_set", "ls_set", "ls_set", "node_transform"]
+
+
+def gen_laser_op(rng, sim, k):
+    lc = sim["laser"]
+    if k == "l_transform":
+        return dict(op=k, t=[_r(v) for v in list(rng.uniform(-0.1, 0.1, 2)) + [rng.uniform(-0.9, -0.4)] + list(rng.uniform(-15, 15, 3))])
+    if k == "l_parent":
+        return dict(op=k, to=["world", "node"][int(rng.integers(2))])
+    if k == "l_importance":
+        return dict(op=k, v=_r(rng.uniform(0.0, 5.0)))
+    if k in ("l_integrator", "l_integrator_step"):
+        return dict(op=k, step=_r(rng.uniform(0.01, 0.03)))
+    if k == "l_spectrum":
+        return dict(op=k, sp=g_spectrum(rng))
+    if k == "l_profile":
+        return dict(op=k, pr=g_profile(rng))
+    if k == "l_models_set":
+        return dict(op=k, list=[dict(kind="thomson")] if rng.random() < 0.7 else [])
+    if k == "l_plasma":
+        return dict(op=k)
+    if k == "lp_set":
+        pr = lc["profile"]
+        attrs = [a for a in pr if a not in ("kind", "pol")]
+        a = attrs[int(rng.integers(len(attrs)))]
+        new = g_profile(rng, pr["kind"])[a]
+        return dict(op=k, attr=a, v=new)
+    if k == "ls_set":
+        sp = lc["spectrum"]
+        attrs = [a for a in sp if a != "kind"]
+        a = attrs[int(rng.integers(len(attrs)))]
+        lo, hi = sp["min_wavelength"], sp["max_wavelength"]
+        if a == "min_wavelength":
+            v = _r(hi - (hi - lo) * rng.uniform(0.3, 2.0))
+        elif a == "max_wavelength":
+            v = _r(lo + (hi - lo) * rng.uniform(0.3, 2.0))
+        elif a == "bins":
+            v = int(rng.integers(1, 6))
+        elif a == "mean":
+            v = _r(rng.uniform(lo, hi))
+        else:
+            v = _r((hi - lo) * rng.uniform(0.05, 0.6))
+        return dict(op=k, attr=a, v=v)
+    return None
+
+
 def gen_op(rng, sim):
     pc, bc = sim["plasma"], sim.get("beam")
-    ops = P_OPS + (B_OPS + B_OPS if bc is not None else [])
+    ops = P_OPS + (B_OPS + B_OPS if bc is not None else []) + (L_OPS + L_OPS if sim.get("laser") is not None else [])
     k = ops[int(rng.integers(len(ops)))]
+    if k in L_OPS and k != "node_transform":
+        return gen_laser_op(rng, sim, k)
     present = [(s["el"], s["q"]) for s in pc["species"]]
     if k == "p_bfield":
         return dict(op=k, v=g_bvec(rng))
@@ -409,7 +523,8 @@ _BUDGET = {"t0": None, "spent": 0.0}
 
 
 def run_case(case, ctx):
-    ctx.cls("with-beam" if case["cfg"].get("beam") else "plasma-only")
+    c = case["cfg"]
+    ctx.cls("+".join(["plasma"] + (["beam"] if c.get("beam") else []) + (["laser"] if c.get("laser") else [])))
     try:
         fails, nontrivial = execute(case, ctx)
     except _Invalid:
